@@ -19,12 +19,14 @@ from concurrent.futures import ThreadPoolExecutor
 
 import lib
 import refstie
+import cachetie
 from lib import coq_list
 
 import c12_families
 
 COQ_TARGETS = ["theories/Proofs/CacheLemmas.vo", "theories/Proofs/CacheMemo.vo", "theories/Model/CacheToy.vo"]
 COQ_TARGETS = COQ_TARGETS + [t for t in refstie.COQ_TARGETS if t not in COQ_TARGETS]
+COQ_TARGETS = COQ_TARGETS + [t for t in cachetie.COQ_TARGETS if t not in COQ_TARGETS]
 WORKER = os.path.join(lib.VERIF, "harness", "c12_worker.py")
 THEOREMS = ["C12_memo_transparent", "C12_memo_transparent_immutable", "C12_history_independent",
             "C12_inputs_untouched",
@@ -727,6 +729,8 @@ def correspond(run: lib.Run):
     run.samples.append({"history": hists[len(corpus_histories())][:4], "observed": runs[len(corpus_histories())]["obs"][:4]})
     # the memo layers in front of reference resolution (string-keyed factory caches, module discovery): Props/C11Refs.v
     lib.run_tie(run, refstie)
+    # the cached system refines the STATELESS core model on every history (Props/C12Bridge.v); histories vs Core by vm_compute
+    lib.run_tie(run, cachetie)
 
 
 def check_catalogue(run, pool):
